@@ -108,6 +108,16 @@ JOBS = {
     "md_lshift_nh3_b": {"kind": "md", "engine": "langevin", "mol": "NH3", "gs": 68, "sett": _s("PM3", 1e-7, [1]), "sig": "m8",
                         "steps": 3, "dt": 0.5, "Temp": 400.0, "seed": 28, "damp": 20.0,
                         "run_kw": {"control_energy_shift": True}, "sigma": 0.12},
+    # seeded STOCHASTIC engines started from user-supplied velocities (no Maxwell-Boltzmann draw): the noise must come
+    # from the seed given to run(), not from whatever the process-global RNG was left at
+    "md_lang_preset": {"kind": "md", "engine": "langevin", "mol": "H2O", "gs": 81, "sett": _s("AM1", 1e-8, [2]), "sig": "s1",
+                       "steps": 3, "dt": 0.5, "Temp": 300.0, "seed": 31, "damp": 10.0, "preset_vel": 0.01},
+    "md_xldamp_preset": {"kind": "md", "engine": "xl", "mol": "H2O", "gs": 82, "sett": _s("AM1", 1e-7, [2]), "sig": "s2",
+                         "steps": 3, "dt": 0.4, "Temp": 300.0, "seed": 32, "k": 5, "damp": 10.0, "preset_vel": 0.01},
+    # excited states with scf_eps looser than 0.1 x CIS tolerance: the constructor tightens scf_eps IN the caller's dict
+    "am1_ch2o_cis_loose": {"kind": "sp", "mol": "CH2O", "gs": 83,
+                           "sett": _s("AM1", 1e-5, [2], excited_states={"n_states": 3, "tolerance": 1e-6, "method": "cis"},
+                                      active_state=1), "sig": "X2"},
     # rarely used options that bring their own tables / module state
     # AM1 + dispersion: non-bonded dimers (separation > 3 A), same largest Z but different element sets
     "disp_h2o_dimer": {"kind": "sp", "mol": ["H2O", [3.1, 0.6, 0.4]], "dimer": True, "gs": 71,
@@ -139,6 +149,7 @@ JOBS = {
 }
 GRAD_JOBS = [k for k, v in JOBS.items() if v["kind"] == "grad"]
 ENGINE_JOBS = [k for k, v in JOBS.items() if v["kind"] in ("md", "opt")]
+STOCHASTIC_PRESET_JOBS = ["md_lang_preset", "md_xldamp_preset"]
 OPTION_JOBS = [k for k in JOBS if k.startswith("disp_") or k in ("am1_dimer_cutoff", "am1_h2o_hfflag", "am1_h2o_noeig",
                                                                  "pm3_h2o_altparams", "am1_h2o_learned")]
 DISP_JOBS = [k for k in JOBS if k.startswith("disp_")]
@@ -487,10 +498,15 @@ def _run_job(job, reuse, reg, scratch, idx, extra):
             md = KSA_XL_BOMD(xl_bomd_params={"k": spec["k"], "max_rank": 2, "err_threshold": 0.0, "T_el": 300.0},
                              damp=None, seqm_parameters=sett, timestep=spec["dt"], Temp=spec["Temp"], output=out)
         else:
-            md = XL_BOMD(xl_bomd_params={"k": spec["k"]}, damp=None, seqm_parameters=sett, timestep=spec["dt"],
+            md = XL_BOMD(xl_bomd_params={"k": spec["k"]}, damp=spec.get("damp"), seqm_parameters=sett, timestep=spec["dt"],
                          Temp=spec["Temp"], output=out)
         if reuse == "engine" and not info["engine_reused"]:
             ent["engine"], ent["driver_for"] = md, sorted(set(sett.get("elements", els)) - {0})
+        if spec.get("preset_vel"):
+            gv = np.random.default_rng(7000 + spec["gs"])
+            V = gv.normal(scale=spec["preset_vel"], size=tuple(mol.coordinates.shape))
+            V[(mol.species == 0).numpy()] = 0.0
+            mol.velocities = torch.as_tensor(V).clone()
         kw = {}
         for k, v in (spec.get("run_kw") or {}).items():
             kw[k] = tuple(v) if isinstance(v, list) else v
